@@ -9,6 +9,8 @@ import Proofs.C11_Lemmas
 import Proofs.C11_Crystal
 import Proofs.C11_Iso
 import Proofs.C11_Norm
+import Proofs.C11_Reuss
+import Proofs.C11_Setters
 
 namespace Atomman.C11
 open Atomman.Gen
@@ -130,6 +132,62 @@ theorem voigt_moduli_invariant (c : M6 K) (hc : Symm6 c) (T : M33 K) (h : Orthog
   · rw [bulkVoigt_eq_tr _ (rot_major T hM), tr1_rot T h, ← bulkVoigt_eq_tr _ hM, cijkl_roundtrip]
   · rw [shearVoigt_eq_tr _ (rot_minor T hm) (rot_major T hM), tr1_rot T h, tr2_rot T h,
       ← shearVoigt_eq_tr _ hm hM, cijkl_roundtrip]
+
+/-- Reuss bulk and shear moduli: `s` a two-sided inverse of the symmetric `c`, `s'` any left inverse of the
+    rotated 6x6 (what `np.linalg.inv` returns for it). -/
+theorem reuss_moduli_invariant (c s s' : M6 K) (hc : Symm6 c)
+    (hcs : ∀ a d : Fin 6, ∑ b, c a b * s b d = if a = d then 1 else 0)
+    (hsc : ∀ a d : Fin 6, ∑ b, s a b * c b d = if a = d then 1 else 0)
+    (T : M33 K) (h : Orthogonal T)
+    (hs' : ∀ a d : Fin 6, ∑ b, s' a b * cijklSetRaw (rot T (cijklGet c)) b d = if a = d then 1 else 0) :
+    bulkReuss s' = bulkReuss s ∧ shearReuss s' = shearReuss s := reuss_rot c s s' hc hcs hsc T h hs'
+
+/-- ... hence the Hill averages. -/
+theorem hill_moduli_invariant (c s s' : M6 K) (hc : Symm6 c)
+    (hcs : ∀ a d : Fin 6, ∑ b, c a b * s b d = if a = d then 1 else 0)
+    (hsc : ∀ a d : Fin 6, ∑ b, s a b * c b d = if a = d then 1 else 0)
+    (T : M33 K) (h : Orthogonal T)
+    (hs' : ∀ a d : Fin 6, ∑ b, s' a b * cijklSetRaw (rot T (cijklGet c)) b d = if a = d then 1 else 0) :
+    bulkHill (cijklSetRaw (rot T (cijklGet c))) s' = bulkHill c s ∧
+    shearHill (cijklSetRaw (rot T (cijklGet c))) s' = shearHill c s := by
+  obtain ⟨v1, v2⟩ := voigt_moduli_invariant c hc T h
+  obtain ⟨r1, r2⟩ := reuss_rot c s s' hc hcs hsc T h hs'
+  simp only [bulkHill, shearHill, v1, v2, r1, r2, and_self]
+
+/-- the compliance of the rotated stiffness is the rotated compliance tensor (in 6x6 form). -/
+theorem compliance_transforms_as_tensor (c s : M6 K)
+    (hcs : ∀ a d : Fin 6, ∑ b, c a b * s b d = if a = d then 1 else 0) (T : M33 K) (h : Orthogonal T) (a d : Fin 6) :
+    ∑ b, cijklSetRaw (rot T (cijklGet c)) a b * sijklSetRaw (rot T (sijklGet s)) b d = if a = d then 1 else 0 :=
+  rotated_inverse c s hcs T h a d
+
+/-! ## the setters and `transform` of the class in terms of the pure pieces -/
+
+/-- what the `Cij` setter stores for an exactly symmetric input is symmetric (so `major_symm` applies to every
+    object built from symmetric data), and it is the input with the relatively tiny entries zeroed. -/
+theorem cij_setter_symm (v : M6 K) (h : Symm6 v) :
+    (0 < max6 v → setCij v = .ok (zeroSmall (max6 v) v)) ∧ (∀ z, setCij v = .ok z → Symm6 z) :=
+  ⟨setCij_of_symm v h, fun z hz => setCij_symm v z h hz⟩
+
+/-- `ElasticConstants(Cijkl=ec.Cijkl)` and `ElasticConstants(Cij9=ec.Cij9)` pass all assertions and store what
+    `ElasticConstants(Cij=ec.Cij)` stores. -/
+theorem setter_roundtrips (c : M6 K) (h : Symm6 c) (hpos : 0 < max6 c) :
+    setCijkl (cijklGet c) = setCij c ∧ setCij9 (cij9Get c) = setCij c :=
+  ⟨setCijkl_cijklGet c h hpos, setCij9_cij9Get c h⟩
+
+example : Symm6 (m6 (ctor_C11_C12_C44 (3 : ℚ) 1 2)) ∧ 0 < max6 (m6 (ctor_C11_C12_C44 (3 : ℚ) 1 2)) := by
+  constructor
+  · unfold Symm6; decide
+  · rw [max6_pos]; exact ⟨0, 0, by decide⟩
+
+/-- exactly orthonormal right-handed axes pass `axes_check` unchanged, and `transform` is then the tensor rotation
+    `rot`, the relative clean-up and the `Cijkl` setter. -/
+theorem transform_is_rot (tol : K) (axes : M33 K) (norms : Fin 3 → K) (c : M6 K) (hn : ∀ i, norms i = 1)
+    (ho : Orthogonal axes)
+    (hr : axes 0 1 * axes 1 2 - axes 0 2 * axes 1 1 = axes 2 0 ∧ axes 0 2 * axes 1 0 - axes 0 0 * axes 1 2 = axes 2 1 ∧
+      axes 0 0 * axes 1 1 - axes 0 1 * axes 1 0 = axes 2 2) :
+    transform tol axes norms c
+      = setCijkl (cleanT4 tol (max4 (rot axes (cijklGet c))) (rot axes (cijklGet c))) :=
+  transform_spec tol axes norms c axes (axesCheck_of_orthonormal axes norms hn ho hr)
 
 /-! ## crystal systems: the generated template is fixed by the generating symmetry rotations -/
 
@@ -371,16 +429,6 @@ theorem normalized_idem_isotropic (c s s' : M6 K) (hmu : shearHill c s ≠ 0) (h
 example : shearHill (m6 (ctor_mu_K (2 : ℚ) 3)) (isoS 2 3) ≠ 0 ∧ bulkHill (m6 (ctor_mu_K (2 : ℚ) 3)) (isoS 2 3) ≠ 0 := by
   obtain ⟨h1, h2⟩ := hill_of_iso (2 : ℚ) 3 (by norm_num) (by norm_num)
   rw [h1, h2]; constructor <;> norm_num
-
-/-- `np.isclose(x, x)` holds for non-negative tolerances. -/
-theorem isclose_self (rt at' x : K) (h1 : 0 ≤ rt) (h2 : 0 ≤ at') : isclose rt at' x x = true := by
-  simp only [isclose, sub_self, decide_eq_true_eq]
-  have h0 : absK (0 : K) = 0 := by simp [absK]
-  have hx : 0 ≤ absK x := by
-    unfold absK; split
-    · rename_i h; simp only [Nat.cast_zero] at h; linarith
-    · rename_i h; simp only [Nat.cast_zero, not_lt] at h; exact h
-  rw [h0]; positivity
 
 /-- a normalised tensor passes `is_normal` for its system (formula level: the comparison of
     `n = normalized(c)` with `normalized(n)` entry by entry). -/
